@@ -421,6 +421,11 @@ class HTTP(BaseComponent):
         if isinstance(fevent, response):
             res = fevent.args[0]
             req = res.request
+            # Ignore failures of "response" handlers already answered
+            # (or deliberately ignored) by _on_response_failure.
+            if res.done or req.handled:
+                return
+            req.handled = True
         elif isinstance(fevent.value.parent.event, request):
             req, res = fevent.value.parent.event.args[:2]
             # Ignore failures already answered by _on_request_success
@@ -467,6 +472,8 @@ class HTTP(BaseComponent):
         # Ignore failed "response" handlers (eg: Loggers or Tools)
         if res.done:
             return
+
+        req.handled = True
 
         res = wrappers.Response(req, self._encoding, 500)
         self.fire(httperror(req, res, error=error))
